@@ -48,6 +48,7 @@ func c07Doc(name string, ti vocab.TypeInfo, known bool) map[string]interface{} {
 		d["subject"] = "https://example.com/subject"
 	case "Question":
 		d["oneOf"] = []interface{}{"https://example.com/opt/1", "https://example.com/opt/2"}
+		d["anyOf"] = "https://example.com/any/only" // a list property holding one item, written as the item
 	case "Collection", "CollectionPage", "OrderedCollection", "OrderedCollectionPage":
 		d["totalItems"] = 7
 		if ti.GoType == "OrderedCollectionPage" {
@@ -98,6 +99,7 @@ func c07Value(name string, ti vocab.TypeInfo) ap.Item {
 		setItem("Subject", ap.IRI("https://example.com/subject"))
 	case "Question":
 		setItem("OneOf", ap.ItemCollection{ap.IRI("https://example.com/opt/1"), ap.IRI("https://example.com/opt/2")})
+		setItem("AnyOf", ap.IRI("https://example.com/any/only"))
 	case "Collection", "CollectionPage", "OrderedCollection", "OrderedCollectionPage":
 		v.FieldByName("TotalItems").SetUint(7)
 		if ti.GoType == "OrderedCollectionPage" {
@@ -170,6 +172,8 @@ func c07CheckMarkers(it ap.Item, name string, ti vocab.TypeInfo) string {
 			bad = "oneOf unset"
 		} else if l, ok := x.Interface().(ap.ItemCollection); !ok || len(l) != 2 {
 			bad = "oneOf = " + vocab.Dump(x.Interface())
+		} else if link("AnyOf") != "https://example.com/any/only" {
+			bad = "anyOf = " + link("AnyOf")
 		}
 	case "Collection", "CollectionPage", "OrderedCollection", "OrderedCollectionPage":
 		if sv.FieldByName("TotalItems").Uint() != 7 {
